@@ -112,6 +112,10 @@ class FakeTransport(asyncio.DatagramTransport):
             self.net.log.append(("send-on-closed", self.loop.clock.now(), self.local, bytes(data)))
             return
         self.sent += 1
+        if addr is not None and addr[0] in ("<broadcast>", "255.255.255.255") and not self.kw.get("allow_broadcast"):
+            # the OS refuses a broadcast on a socket opened without allow_broadcast; asyncio reports it
+            self.protocol.error_received(PermissionError(13, "Permission denied"))
+            return
         if getattr(self.net, "send_error", None) is not None:
             # what asyncio's datagram transport does when sendto() raises OSError (interface down,
             # no route): the datagram is lost and the protocol is told through error_received()
